@@ -185,21 +185,39 @@ impl Prop for C08 {
             return out;
         };
         let tag = prng::fnv(&input) ^ case.ambient.entropy;
+        let mut effective_knobs: Option<SimKnobs> = None;
         let (ran, sched) = match &case.par {
             None => (life::run_ser(env, &input, &case.cfg, &case.ops, &case.ambient, tag), None),
             Some(k) => {
                 out.hit("histories_on_parallel_build_in_sim");
-                let r = life::run_par(env, &input, &case.cfg, &case.ops, &case.ambient, k, case.schedule.clone().map(|s| (s, true)), tag);
+                let (r, used, retries) = match life::run_par_robust(env, &input, &case.cfg, &case.ops, &case.ambient, k, case.schedule.clone().map(|s| (s, true)), tag) {
+                    Ok(x) => x,
+                    Err(life::StuckErr::Respawn(l)) => {
+                        out.respawn_at_level = Some(l);
+                        return out;
+                    }
+                    Err(life::StuckErr::Final(e)) => {
+                        out.harness_error = Some(e);
+                        return out;
+                    }
+                };
+                if retries > 0 {
+                    out.hit("stuck_in_sim_retried_with_coarser_preemption");
+                }
+                effective_knobs = Some(used);
                 let s = r.sim.as_ref().map(|s| s.schedule.clone());
                 if case.schedule.is_some() && r.sim.as_ref().map(|s| s.stats.replay_divergences).unwrap_or(0) > 0 {
-                    out.harness_error = Some("schedule replay diverged".into());
-                    return out;
+                    // recorded against other code: the lenient verdict stands (see C09)
+                    out.hit("replay_schedule_diverged_code_differs_from_recording");
                 }
                 (r, s)
             }
         };
         let mut failing = case.clone();
         failing.schedule = sched;
+        if let Some(k) = effective_knobs {
+            failing.par = Some(k);
+        }
         let fail = |oracle: &str, detail: String| Some(Failure { oracle: oracle.to_string(), detail, case: serde_json::to_value(&failing).unwrap() });
         let Some(t) = ran.transcript else {
             let msg = ran.abort.unwrap_or_default();
